@@ -264,6 +264,52 @@ fn fam_random_mod<const N: usize>(ctx: &Ctx) {
     });
 }
 
+/// (d') BoxedUint::try_random_bits_with_precision for EVERY precision (not only limb multiples) x every bit length:
+/// the documented error is decided against the REQUESTED precision, not the limb-rounded allocation.
+fn fam_boxed_bits_precision(ctx: &Ctx) {
+    let fam = "boxed_bits_precision";
+    if !ctx.want(fam) {
+        return;
+    }
+    let maxp: u32 = if ctx.thorough() { 600 } else { 200 };
+    ctx.par_for(fam, "Boxed", maxp as usize, |i, l| {
+        let p = i as u32 + 1;
+        let rounded = p.div_ceil(64) * 64;
+        let wname = format!("Boxed precision={p}");
+        for bl in 0..=rounded + 2 {
+            for (name, byte) in [("ones", 0xffu8), ("probe", 0xa5u8)] {
+                l.cases += 1;
+                l.nontrivial += (bl > 0) as u64;
+                let st = vec![byte; (rounded as usize) / 8 + 24];
+                let inputs = vec![format!("bit_length={bl}"), format!("bits_precision={p}"), format!("stream={name}")];
+                let mut r = ScriptRng::from_bytes(&st);
+                let b = guard(|| BoxedUint::try_random_bits_with_precision(&mut r, bl, p));
+                l.form("Boxed::try_random_bits_with_precision");
+                l.evals += 1;
+                if bl > p {
+                    l.class("bit_length > requested precision");
+                    match &b {
+                        Ok(Err(RandomBitsError::BitLengthTooLarge { bit_length, bits_precision })) if *bit_length == bl && *bits_precision == p => {}
+                        other => fail(l, fam, "Boxed::try_random_bits_with_precision", "too_large_unaligned_precision", &wname, inputs, format!("Err(BitLengthTooLarge {{ bit_length: {bl}, bits_precision: {p} }})"), format!("{other:?}"), other.is_err()),
+                    }
+                    continue;
+                }
+                match &b {
+                    Ok(Ok(v)) => {
+                        let vb = to_big(&bw(v));
+                        let ok_range = vb < pow2(bl as usize);
+                        let ok_ones = name != "ones" || vb == pow2(bl as usize) - 1u32;
+                        if !(ok_range && ok_ones && v.bits_precision() == rounded) {
+                            fail(l, fam, "Boxed::try_random_bits_with_precision", "value", &wname, inputs, format!("< 2^{bl} (all-ones stream: 2^{bl}-1), precision {rounded}"), format!("{} precision {}", hex(&bw(v)), v.bits_precision()), false);
+                        }
+                    }
+                    other => fail(l, fam, "Boxed::try_random_bits_with_precision", "value", &wname, inputs, "Ok(value)".into(), format!("{other:?}"), other.is_err()),
+                }
+            }
+        }
+    });
+}
+
 /// (d) random_bits: every bit length, exact value on all-ones / probe / zero streams, errors, fixed == boxed
 fn fam_random_bits<const N: usize>(ctx: &Ctx) {
     let fam = "random_bits";
@@ -517,6 +563,7 @@ fn main() {
     fam_random_bits::<2>(ctx);
     fam_random_bits::<4>(ctx);
     fam_random_bits::<8>(ctx);
+    fam_boxed_bits_precision(ctx);
     fam_random::<1>(ctx);
     fam_random::<2>(ctx);
     fam_random::<4>(ctx);
